@@ -1,5 +1,5 @@
 """C17 — template rendering is pure, repeatable and safe to use concurrently (spec module Engine)."""
-import json, os, re
+import copy, json, os, re, threading
 
 from vlib import Machinery, log
 
@@ -93,13 +93,56 @@ def dedupe_programs(cases):
     return out
 
 
-def judge(ctx, obs, tag):
-    return ctx.tlc_trace("Engine_Trace.tla", "Engine_Trace.cfg", obs, tag)
+def judge(ctx, obs, tag, parts=1):
+    """Judge an observation file; with parts > 1 it is cut at behaviour boundaries and the pieces are judged by
+    concurrent TLC runs (each behaviour is judged independently of the others, so this changes nothing but the wall time)."""
+    if parts <= 1:
+        return ctx.tlc_trace("Engine_Trace.tla", "Engine_Trace.cfg", obs, tag)
+    lines = open(obs).read().splitlines(True)
+    starts = [i for i, l in enumerate(lines) if '"ev":"reset"' in l[:60]] or [0]
+    per = max(1, -(-len(starts) // parts))
+    cuts = [starts[i] for i in range(0, len(starts), per)] + [len(lines)]
+    cuts[0] = 0
+    subs, threads = [], []
+    for i in range(len(cuts) - 1):
+        f = "%s.part%d" % (obs, i)
+        with open(f, "w") as fh:
+            fh.writelines(lines[cuts[i]:cuts[i + 1]])
+        sub = copy.copy(ctx)                      # shares the witness list, has its own counters
+        sub.states = sub.transitions = 0
+        sub.tlc_seq = 1000 * (i + 1) + ctx.tlc_seq
+        sub.part_error = None
+        subs.append(sub)
+        threads.append(threading.Thread(target=run_part, args=(sub, f, tag)))
+    for t in threads:
+        t.start()
+    for t in threads:
+        t.join()
+    for sub in subs:
+        if sub.part_error:
+            raise sub.part_error
+        ctx.states += sub.states
+        ctx.transitions += sub.transitions
+    ctx.tlc_seq += 1
+
+
+def run_part(sub, f, tag):
+    try:
+        sub.tlc_trace("Engine_Trace.tla", "Engine_Trace.cfg", f, tag)
+    except Exception as ex:                        # re-raised in the main thread
+        sub.part_error = ex
 
 
 def merged(ctx, tag, lists):
     cases = [c for l in lists for c in l]
     ctx.cases_by_tag[tag] = {c["id"]: c for c in cases}
+    ops = ctx.extra_cov.setdefault("operations_executed", {})
+    for c in cases:
+        x = c.get("extra") or {}
+        for o in c.get("steps", []) + x.get("setup", []) + [o for p in x.get("progs", []) for o in p]:
+            k = o["op"] + ((":" + o["def"]["k"]) if o["op"] == "Load" else (":" + o["e"]) if o["op"] == "Render" else "")
+            key = tag + "/" + k
+            ops[key] = ops.get(key, 0) + 1
     return cases
 
 
@@ -114,7 +157,7 @@ def sequential(ctx, q):
 
     core = dict(pool="PoolCore", kinds=["Load", "Render", "Remove", "Clear"], argnames=["A"], entries=["doc"])
     wide = dict(pool="PoolQuick" if q else "PoolThorough", kinds=["Load", "Render", "Remove", "Clear"],
-                argnames=sorted(NAMES), entries=["doc", "tpl"])
+                argnames=sorted(NAMES) if q else ["base", "A"], entries=["doc", "tpl"])
     plans = [("bfs-core", core, 4 if q else 5), ("bfs-wide", wide, 2 if q else 3)]
     lists = []
     for tag, a, depth in plans:
@@ -123,7 +166,7 @@ def sequential(ctx, q):
     d = 8 if q else 14
     lists.append(ctx.tlc_gen("Engine_MC.tla", gen_cfg(ctx, "gen_sim.cfg", "PoolThorough", sorted(ALLK), sorted(NAMES), ["doc", "tpl"], d),
                              "sim", mode="sim", num=15 if q else 100, depth=d + 2))
-    judge(ctx, ctx.run_exec("engine", merged(ctx, "seq", lists), "seq"), "seq")
+    judge(ctx, ctx.run_exec("engine", merged(ctx, "seq", lists), "seq"), "seq", parts=1 if q else 4)
     ctx.extra_cov["sequential_bounds"] = {"bfs_core_depth": plans[0][2], "bfs_wide_depth": plans[1][2], "sim_depth": d,
                                           "behaviours": {"bfs_core": len(lists[0]), "bfs_wide": len(lists[1]), "sim": len(lists[2])},
                                           "pools": {"core": "PoolCore", "wide": wide["pool"], "sim": "PoolThorough"}}
@@ -136,11 +179,13 @@ def concurrent(ctx, q):
     expect_violation(ctx, "Engine_Conc.tla", conc_cfg(ctx, "conc_built_race.cfg", "built", "SetupBaseA", "ProgsTiny", ["Inv_NoRace"]), "Inv_NoRace")
     if not q:
         expect_violation(ctx, "Engine_Conc.tla", conc_cfg(ctx, "conc_built_pure.cfg", "built", "SetupBaseA", "ProgsTiny", ["Inv_ConcPure"]), "Inv_ConcPure")
+        # without any inheritance the as-built model still goes wrong: RenderTemplateToDocument fetches the template twice
+        expect_violation(ctx, "Engine_Conc.tla", conc_cfg(ctx, "conc_built_refetch.cfg", "built", "SetupFlat", "ProgsRefetch", ["Inv_ConcPure"]), "Inv_ConcPure")
 
     # (i) schedules of the as-built model forced through the gate hook
     lists = [ctx.tlc_gen("Engine_Conc.tla", conc_cfg(ctx, "gen_gate.cfg", "built", "SetupBaseA", progs, ["EmitC"]), "gate-inherit"),
-             ctx.tlc_gen("Engine_Conc.tla", conc_cfg(ctx, "gen_gateflat.cfg", "built", "SetupFlat", "ProgsFlat", ["EmitC"]), "gate-flat",
-                         limit=400 if q else None),
+             ctx.tlc_gen("Engine_Conc.tla", conc_cfg(ctx, "gen_gateflat.cfg", "built", "SetupFlat", "ProgsFlatQuick" if q else "ProgsFlat", ["EmitC"]),
+                         "gate-flat"),
              ctx.tlc_gen("Engine_Conc.tla", conc_cfg(ctx, "gen_gate3.cfg", "built", "SetupBaseA", "ProgsThree", ["EmitC"]), "gate-three",
                          mode="sim", num=20 if q else 300, depth=40)]
     obs = ctx.run_exec("enginegate", merged(ctx, "gate", lists), "gate")
@@ -157,7 +202,7 @@ def concurrent(ctx, q):
 
     # (ii) the same programs free-running on a -race build, each program set in a child process
     race = ctx.build_harness(race=True)
-    rounds = "4" if q else "12"
+    rounds = "4" if q else "8"
     free = merged(ctx, "free", [dedupe_programs(l) for l in lists])
     obs = ctx.run_exec("enginefree", free, "free", binary=race, env={"WZ_ENG_ROUNDS": rounds}, shards=min(8, len(free)))
     conc_stats(ctx, obs, "free_running")
